@@ -135,8 +135,10 @@ func (m *MessageDescriptor) ByNumber(id FieldNumber) *FieldDescriptor {
 	return (*FieldDescriptor)(m.ids.Get(int32(id)))
 }
 
+// FieldsCount returns the number of declared fields
+// NOTICE: ids.Size() is the greatest field number + 1, not the count
 func (m *MessageDescriptor) FieldsCount() int {
-	return m.ids.Size() - 1
+	return len(m.ids.All())
 }
 
 type MethodDescriptor struct {
